@@ -116,7 +116,9 @@ def run(name, prop, rel, old, new, extra):
   tmp = tempfile.mkdtemp(prefix='dsim-mut-')
   repo = os.path.join(tmp, 'repo')
   try:
-    shutil.copytree('/repo', repo, ignore=shutil.ignore_patterns('.git', '*.egg-info', '__pycache__'))
+    # the committed tree (never the working copy, which another tool may be patching)
+    os.makedirs(repo)
+    subprocess.run('git -C /repo archive HEAD | tar -x -C %s' % repo, shell=True, check=True)
     if old == 'git-revert':
       d = subprocess.run(['git', '-C', '/repo', 'show', new], capture_output=True, text=True).stdout
       r = subprocess.run(['patch', '-R', '-p1', '-d', repo], input=d, capture_output=True, text=True)
@@ -141,6 +143,9 @@ def run(name, prop, rel, old, new, extra):
       rr = subprocess.run([os.path.join(VERIF, 'check.py'), '--replay', path, '--repo', repo],
                           capture_output=True, text=True, timeout=600)
       rep = 'replay-rc=%d' % rr.returncode
+      keep = os.environ.get('KEEP_REPLAY_AS')
+      if keep and rr.returncode == 1:
+        shutil.copy(path, keep)
       for v in viol:
         try:
           os.remove(v.split('replay=')[1])
